@@ -82,6 +82,8 @@ pub enum VAct {
     /// somebody bank-sends the vault coins of a look-alike denom (the vault's denom in upper case); no vault entry
     /// point is involved, and nothing the vault does may depend on it
     SendLookalike { amount: u64 },
+    /// a deposit of a native vault whose attached coin does not match the declared amount / denom
+    BadDeposit { user: String, kind: String },
 }
 
 pub struct VaultScn {
@@ -114,7 +116,14 @@ pub fn deploy_vault(r: &VaultRoot, w: &mut World) -> VH {
             Some(OWNER),
         )
         .expect("vault factory");
-    let asset = if r.cw20 { token(&w.new_cw20("vtok", 6, &[], OWNER)) } else { native(VDENOM) };
+    // (a root labelled ".../ibc-denom" manages an ibc voucher denom instead of the plain one)
+    let asset = if r.cw20 {
+        token(&w.new_cw20("vtok", 6, &[], OWNER))
+    } else if r.label.contains("/ibc-denom") {
+        native("ibc/27394FB092D2ECCD56123C74F36E4C1F926001CEADA9CA97EA622B25F41E5EB2")
+    } else {
+        native(VDENOM)
+    };
     w.exec(
         OWNER,
         &factory,
@@ -429,7 +438,12 @@ impl Scenario for VaultScn {
         }
         if self.property == "C05" {
             if let AssetInfo::NativeToken { denom } = &h.asset {
-                w.mint_native(MALLORY, 1_000_000_000, &denom.to_uppercase());
+                if denom.to_uppercase() != *denom {
+                    w.mint_native(MALLORY, 1_000_000_000, &denom.to_uppercase());
+                } else {
+                    // (an ibc denom is already upper case: the look-alike is its lower-case twin)
+                    w.mint_native(MALLORY, 1_000_000_000, &denom.to_lowercase());
+                }
             }
         }
         let burned = vault_burned(w, &h);
@@ -521,8 +535,11 @@ impl Scenario for VaultScn {
         }
         if self.property == "C05" {
             if let AssetInfo::NativeToken { denom } = &h.asset {
-                if w.native_balance(&h.vault, &denom.to_uppercase()) == 0 {
+                if w.native_balance(&h.vault, &denom.to_uppercase()) == 0 && denom.to_uppercase() != *denom {
                     v.push(VAct::SendLookalike { amount: 10_001 });
+                }
+                for k in ["underfunded", "lookalike_denom", "two_coins"] {
+                    v.push(VAct::BadDeposit { user: MALLORY.to_string(), kind: k.to_string() });
                 }
             }
         }
@@ -675,6 +692,34 @@ impl Scenario for VaultScn {
                     Err(e) => {
                         cx.count("collect:rejected");
                         cx.note(|| format!("rejected: {}", e.msg()));
+                    }
+                }
+            }
+            VAct::BadDeposit { user, kind } => {
+                if let AssetInfo::NativeToken { denom } = &h.asset {
+                    let declared = 1000u128;
+                    let upper = denom.to_uppercase();
+                    let funds = match kind.as_str() {
+                        "underfunded" => vec![coin(1, denom)],
+                        "lookalike_denom" => vec![coin(declared, &upper)],
+                        _ => {
+                            let mut f = vec![coin(declared, denom), coin(1, &upper)];
+                            f.sort_by(|a, b| a.denom.cmp(&b.denom));
+                            f
+                        }
+                    };
+                    let ub = w.native_balance(user, denom);
+                    let lpb = w.cw20_balance(&h.lp, user);
+                    let r = w.exec(user, &h.vault, &VaultExec::Deposit { amount: Uint128::new(declared) }, &funds);
+                    match &r {
+                        Ok(_) => {
+                            cx.count("bad_deposit:accepted");
+                            let paid = ub - w.native_balance(user, denom);
+                            cx.check("deposit.user_paid_exactly", paid == declared, || {
+                                format!("deposit declaring {} funded as '{}' was accepted: user paid {} of the vault asset, shares +{}", declared, kind, paid, w.cw20_balance(&h.lp, user) - lpb)
+                            });
+                        }
+                        Err(_) => cx.count("bad_deposit:rejected"),
                     }
                 }
             }
